@@ -88,6 +88,11 @@ func introspectRemoteSchema(factory QueryerFactory, url string) (*ast.Schema, er
 	}
 
 	for _, remoteType := range remoteSchema.Types {
+		// a type reference which cannot be followed down to a name cannot be converted
+		if err := checkTypeRefs(remoteType); err != nil {
+			return nil, err
+		}
+
 		// convert turn the API payload into a schema type
 		schemaType := parseType(remoteType)
 		if schemaType == nil {
@@ -176,6 +181,12 @@ func introspectRemoteSchema(factory QueryerFactory, url string) (*ast.Schema, er
 		case "skip", "deprecated", "include", "specifiedBy":
 			// skip builtin stuff, it'll be lately added by gqlparser
 			continue
+		}
+
+		for _, argument := range directive.Args {
+			if !argument.Type.complete() {
+				return nil, fmt.Errorf("directive @%s: the type of argument %s is wrapped deeper than the introspection query selects", directive.Name, argument.Name)
+			}
 		}
 
 		// the list of directive locations
@@ -366,6 +377,38 @@ func parseArgList(args []IntrospectionInputValue) ast.ArgumentDefinitionList {
 	}
 
 	return result
+}
+
+// complete reports whether the reference can be followed down to a named type. A LIST or
+// NON_NULL wrapper without ofType is what a service answers for a type which is wrapped
+// deeper than the introspection query selects.
+func (t *IntrospectionTypeRef) complete() bool {
+	for ref := t; ref != nil; ref = ref.OfType {
+		if ref.Kind != "LIST" && ref.Kind != "NON_NULL" {
+			return true
+		}
+	}
+	return false
+}
+
+// checkTypeRefs makes sure that every type reference of the type can be converted by parseTypeRef
+func checkTypeRefs(remoteType IntrospectionQueryFullType) error {
+	for _, field := range remoteType.Fields {
+		if !field.Type.complete() {
+			return fmt.Errorf("type %s: the type of field %s is wrapped deeper than the introspection query selects", remoteType.Name, field.Name)
+		}
+		for _, argument := range field.Args {
+			if !argument.Type.complete() {
+				return fmt.Errorf("type %s: the type of argument %s of field %s is wrapped deeper than the introspection query selects", remoteType.Name, argument.Name, field.Name)
+			}
+		}
+	}
+	for _, field := range remoteType.InputFields {
+		if !field.Type.complete() {
+			return fmt.Errorf("type %s: the type of input field %s is wrapped deeper than the introspection query selects", remoteType.Name, field.Name)
+		}
+	}
+	return nil
 }
 
 func parseTypeRef(response *IntrospectionTypeRef) *ast.Type {
